@@ -214,9 +214,18 @@ class History:
                             "look": 0.0, "rel": 0.0, "cant": 0.0, "atmo": {"kind": "icao", "alt": 0.0}, "winds": None})
         return self.shots[i % len(self.shots)]
 
+    @staticmethod
+    def _entry(cfg):
+        """a pooled calculator; `pin` is its configuration with the step it was created with written out (the global default
+        in force at creation when the settings do not name one): what a calculator computes later depends on that, never on
+        what the global default has been set to since"""
+        obj = pb.Calculator(_config=dict(cfg)) if cfg else pb.Calculator()
+        eff = cfg.get("max_calc_step_size_feet", pb.get_global_max_calc_step_size() >> D.Foot)
+        return {"cfg": dict(cfg), "pin": dict(cfg, max_calc_step_size_feet=eff), "obj": obj, "last_shot": None, "ops": 0}
+
     def _calc(self, i):
         if not self.calcs:
-            self.calcs.append({"cfg": {}, "obj": pb.Calculator(), "last_shot": None, "ops": 0})
+            self.calcs.append(self._entry({}))
         return self.calcs[i % len(self.calcs)]
 
     def _new_shot(self, spec):
@@ -253,8 +262,8 @@ class History:
         if ARG_MUTATED:
             o_, what, b_, a_ = ARG_MUTATED[0]
             r.bad(f"C10:argument-mutated:call-argument:{what}", f"{o_}: the {what} quantity passed to the call had raw value {b_!r} before and {a_!r} after")
-        clean = _do(op, _calc_for(c["cfg"]), build.shot(s["spec"]))
-        far = self.pristine.ask(op, c["cfg"], s["spec"]) if self.pristine is not None else None
+        clean = _do(op, _calc_for(c["pin"]), build.shot(s["spec"]))
+        far = self.pristine.ask(op, c["pin"], s["spec"]) if self.pristine is not None else None
         if far is not None and far[0] == "ok" and far[1] != repr(clean) and live == clean:
             r.bad(f"C10:process-state-dependent-result:{op['op']}", f"{op['op']} computed in this process (fresh calculator, shot rebuilt from the model) differs "
                   f"from the same computation in a process forked before the history began: an earlier operation left something behind in "
@@ -306,7 +315,7 @@ class History:
         for spec in self.PROBES:
             op = {"op": "fire", "args": {"R": 1200.0, "step": 150.0, "extra": False}}
             live = _do(op, c["obj"], build.shot(spec))
-            clean = _do(op, pb.Calculator(_config=dict(c["cfg"])) if c["cfg"] else pb.Calculator(), build.shot(spec))
+            clean = _do(op, _calc_for(c["pin"]), build.shot(spec))
             if live != clean:
                 r.bad("C10:history-dependent-result:probe-after-raise", f"after a raising call the calculator (config {c['cfg']}) computes a probe shot "
                       f"differently from a fresh calculator of the same configuration (live {str(live)[:90]} vs clean {str(clean)[:90]})")
@@ -322,12 +331,17 @@ class History:
             if name == "new_shot_extreme":
                 self.lab.add("extreme-atmosphere-shot")
         elif name == "new_calc":
-            self.calcs.append({"cfg": dict(a["cfg"]), "obj": pb.Calculator(_config=dict(a["cfg"])) if a["cfg"] else pb.Calculator(),
-                               "last_shot": None, "ops": 0})
+            self.calcs.append(self._entry(a["cfg"]))
             if len(self.calcs) > 3:
                 self.calcs.pop(0)
         elif name in ("zero", "elevation", "fire", "fire_unreachable", "danger"):
             self._compute(r, op, a["c"], a["s"])
+        elif name == "set_global_step":
+            # the global default step concerns calculators created afterwards only
+            pb.set_global_max_calc_step_size(D.Foot(a["x"]))
+            self.lab.add("global-step-set")
+        elif name == "reset_globals":
+            pb.reset_globals()
         elif name == "repeat" and self.last is not None:
             self._compute(r, *self.last)
         elif name == "construct_unrelated":
@@ -443,6 +457,8 @@ H_RULES = {
     "danger": st.fixed_dictionaries({"c": _c, "s": _s, "R": st.floats(200.0, 900.0), "at": st.floats(0.1, 0.9), "h": st.floats(1.0, 60.0)}),
     "construct_unrelated": st.fixed_dictionaries({"s": _s, "k": st.integers(0, 35)}),
     "repeat": st.just({}),
+    "set_global_step": st.fixed_dictionaries({"x": st.sampled_from([0.25, 1.0, 2.0, 0.5])}),
+    "reset_globals": st.just({}),
     "edit": st.fixed_dictionaries({"s": _s, "what": st.sampled_from(["bc", "cd", "wind", "humidity", "mv", "look", "twist", "powder"]),
                                    "x": st.floats(0.0, 1.0), "j": st.integers(0, 80)}),
 }
